@@ -298,6 +298,8 @@ package core
 //@   ensures[C13] none: (syntax == "none" || syntax == "") ==> x == p && err == nil
 //@   ensures[C13] unknownsyntax: syntax != "none" && syntax != "" && syntax != "json" ==> err != nil && x == nil
 //@   ensures[C13] jsonpass: syntax == "json" && !is(p, string) ==> x == p && err == nil
+//@   ensures[C13] jsontext: syntax == "json" && is(p, string) ==> ncalls("extern:encoding/json.Unmarshal") == old(ncalls("extern:encoding/json.Unmarshal")) + 1 && err == lastret("extern:encoding/json.Unmarshal", err)
+//@   ensures[C13] jsonvalue: syntax == "json" && is(p, string) && err == nil ==> x == *as(lastarg("extern:encoding/json.Unmarshal", v), *interface{})
 
 // A Specter hands out a compiled spec (or nil).
 //@ iface core.Specter.Spec(recv) returns (s)
